@@ -16,18 +16,22 @@ package paymentsdb
 import (
 	"context"
 	"encoding/binary"
+	"encoding/hex"
 	"errors"
 	"sort"
+	"strconv"
 	"sync"
 	"testing"
 	"time"
 
+	"github.com/btcsuite/btcd/btcec/v2"
 	"github.com/lightningnetwork/lnd/kvdb"
 	"github.com/lightningnetwork/lnd/lntypes"
 	"github.com/lightningnetwork/lnd/lnwire"
 	"github.com/lightningnetwork/lnd/record"
 	"github.com/lightningnetwork/lnd/routing/route"
 	"github.com/lightningnetwork/lnd/sqldb"
+	"github.com/lightningnetwork/lnd/tlv"
 )
 
 // ---- canonical error enum (must match Payments/Model.v `err` and props/c16.py)
@@ -82,6 +86,101 @@ type vProj struct {
 	Pf  bool     `json:"pf"`
 	Fr  *int     `json:"fr"`
 	At  [][3]any `json:"at"`
+	// Rt: the stored attempt (route content, session key, hash) as the
+	// store hands it back, keyed by the small attempt id.  Not part of the
+	// Coq model's projection; compared KV-vs-SQL and against what was
+	// registered (props/c16.py).
+	Rt map[string]*vRouteP `json:"rt,omitempty"`
+}
+
+// vHopP / vRouteP: canonical projection of every per-hop / per-route field
+// the payment stores persist (no timestamps, byte strings as hex, nil and
+// empty byte strings identified, record maps sorted by key).
+type vHopP struct {
+	PK  string   `json:"pk"`
+	Ch  uint64   `json:"ch"`
+	TL  uint32   `json:"tl"`
+	Amt uint64   `json:"amt"`
+	MPP []any    `json:"mpp,omitempty"` // [addr hex, total]
+	AMP []any    `json:"amp,omitempty"` // [root share hex, set id hex, child]
+	ED  string   `json:"ed,omitempty"`
+	BP  string   `json:"bp,omitempty"`
+	Tot uint64   `json:"tot,omitempty"`
+	MD  string   `json:"md,omitempty"`
+	CR  [][2]any `json:"cr,omitempty"`
+	LG  bool     `json:"lg,omitempty"`
+}
+
+type vRouteP struct {
+	Src  string   `json:"src"`
+	TTL  uint32   `json:"ttl"`
+	TAmt uint64   `json:"tamt"`
+	FHA  uint64   `json:"fha,omitempty"`
+	FHCR [][2]any `json:"fhcr,omitempty"`
+	SK   string   `json:"sk"`
+	Hash string   `json:"hash"`
+	Hops []vHopP  `json:"hops"`
+}
+
+func vSortedRecs(m map[uint64][]byte) [][2]any {
+	if len(m) == 0 {
+		return nil
+	}
+	ks := make([]uint64, 0, len(m))
+	for k := range m {
+		ks = append(ks, k)
+	}
+	sort.Slice(ks, func(i, j int) bool { return ks[i] < ks[j] })
+	out := make([][2]any, 0, len(ks))
+	for _, k := range ks {
+		out = append(out, [2]any{k, hex.EncodeToString(m[k])})
+	}
+	return out
+}
+
+func vProjAttempt(a *HTLCAttemptInfo) *vRouteP {
+	rt := &a.Route
+	p := &vRouteP{
+		Src:  hex.EncodeToString(rt.SourcePubKey[:]),
+		TTL:  rt.TotalTimeLock,
+		TAmt: uint64(rt.TotalAmount),
+		FHA:  uint64(rt.FirstHopAmount.Val.Int()),
+		FHCR: vSortedRecs(rt.FirstHopWireCustomRecords),
+		SK:   hex.EncodeToString(a.sessionKey[:]),
+		Hops: []vHopP{},
+	}
+	if a.Hash != nil {
+		p.Hash = hex.EncodeToString(a.Hash[:8])
+	}
+	for _, h := range rt.Hops {
+		hp := vHopP{
+			PK:  hex.EncodeToString(h.PubKeyBytes[:]),
+			Ch:  h.ChannelID,
+			TL:  h.OutgoingTimeLock,
+			Amt: uint64(h.AmtToForward),
+			ED:  hex.EncodeToString(h.EncryptedData),
+			Tot: uint64(h.TotalAmtMsat),
+			MD:  hex.EncodeToString(h.Metadata),
+			CR:  vSortedRecs(h.CustomRecords),
+			LG:  h.LegacyPayload,
+		}
+		if h.MPP != nil {
+			ad := h.MPP.PaymentAddr()
+			hp.MPP = []any{hex.EncodeToString(ad[:]),
+				uint64(h.MPP.TotalMsat())}
+		}
+		if h.AMP != nil {
+			rs, si := h.AMP.RootShare(), h.AMP.SetID()
+			hp.AMP = []any{hex.EncodeToString(rs[:]),
+				hex.EncodeToString(si[:]), h.AMP.ChildIndex()}
+		}
+		if h.BlindingPoint != nil {
+			hp.BP = hex.EncodeToString(
+				h.BlindingPoint.SerializeCompressed())
+		}
+		p.Hops = append(p.Hops, hp)
+	}
+	return p
 }
 
 type vResp struct {
@@ -94,6 +193,9 @@ type vResp struct {
 	// transaction back: the operation did not happen).  Only expected under
 	// concurrency (verif_concurrent_test.go).
 	Ab bool `json:"ab,omitempty"`
+	// Reg: RegisterAttempt only — the attempt as it was handed to the store
+	// (projection of the in-memory object before the call).
+	Reg *vRouteP `json:"reg,omitempty"`
 }
 
 func vProject(p *MPPayment, idBase uint64) *vProj {
@@ -128,6 +230,12 @@ func vProject(p *MPPayment, idBase uint64) *vProj {
 		pr.At = append(pr.At, [3]any{
 			h.AttemptID - idBase, uint64(h.Route.ReceiverAmt()), out,
 		})
+		if pr.Rt == nil {
+			pr.Rt = map[string]*vRouteP{}
+		}
+		hi := h.HTLCAttemptInfo
+		pr.Rt[strconv.FormatUint(h.AttemptID-idBase, 10)] =
+			vProjAttempt(&hi)
 	}
 	return pr
 }
@@ -184,6 +292,173 @@ type vAtt struct {
 	Total   uint64
 	Blinded bool
 	BTotal  uint64
+	// Sh: content of the route beyond what verifyAttempt reads (nil = one
+	// plain hop; blinded: encrypted data without a blinding point).
+	Sh *vShape
+}
+
+// vShape describes the ROUTE CONTENT of a registered attempt: every per-hop
+// and per-route field the stores persist.  The fields verifyAttempt reads
+// (receiver amount, final-hop MPP record, final hop blinded?, blinded total)
+// stay in vAtt / the op's positions 3..8, so the Coq model sees the same op.
+type vShape struct {
+	N    int    `json:"n"`              // hops (1..4)
+	BL   int    `json:"bl,omitempty"`   // blinded tail length (blinded attempts: 1..N)
+	NoBP bool   `json:"nobp,omitempty"` // introduction hop WITHOUT blinding point
+	AMP  int    `json:"amp,omitempty"`  // AMP record on the final hop (child index variant)
+	CR   int    `json:"cr,omitempty"`   // bit i: hop i carries custom records
+	CRV  int    `json:"crv,omitempty"`  // which custom-record set
+	MD   int    `json:"md,omitempty"`   // final-hop metadata: 1 one byte, 2 32 bytes, 3 empty non-nil
+	FH   int    `json:"fh,omitempty"`   // bit0 FirstHopAmount, bit1 first-hop wire custom records
+	ED   int    `json:"ed,omitempty"`   // encrypted-data length variant
+	Fee  uint64 `json:"fee,omitempty"`  // per-hop fee (AmtToForward differs per hop)
+	TL   int    `json:"tl,omitempty"`   // time lock / channel id boundary variant
+	// XK: first hop carries a custom record with a key >= 2^63 (probe only:
+	// the SQL schema refuses it, see notes/C16.md)
+	XK bool `json:"xk,omitempty"`
+}
+
+var (
+	vPubOnce sync.Once
+	vPubs    []*btcec.PublicKey
+)
+
+// vPub: deterministic valid curve points (blinding points must parse when the
+// stores read them back; hop / source keys are only 33 stored bytes).
+func vPub(i int) *btcec.PublicKey {
+	vPubOnce.Do(func() {
+		for k := 0; k < 8; k++ {
+			var b [32]byte
+			b[0] = 0x16
+			b[31] = byte(k + 1)
+			_, pk := btcec.PrivKeyFromBytes(b[:])
+			vPubs = append(vPubs, pk)
+		}
+	})
+	return vPubs[i%len(vPubs)]
+}
+
+var (
+	vTLs   = []uint32{100, 0, 1, 1<<31 - 1, 1 << 31, 1<<32 - 1}
+	vChans = []uint64{1, 0, 1<<63 - 1, 1 << 63, 1<<64 - 1, 0x0a0b0c0000010000}
+	vEDLen = []int{3, 1, 2, 64, 300}
+)
+
+func vCustomSet(v int, salt byte) map[uint64][]byte {
+	switch v % 5 {
+	case 0:
+		return map[uint64][]byte{65536: {salt}}
+	case 1:
+		return map[uint64][]byte{65537: {salt, 2, 3}, 65536 + 1000: {}}
+	case 2:
+		big := make([]byte, 40)
+		for i := range big {
+			big[i] = salt + byte(i)
+		}
+		return map[uint64][]byte{5482373484: big}
+	case 3:
+		// (keys >= 2^63 are refused by the SQL schema's CHECK on the
+		// int64 column while the KV store takes them: see notes/C16.md)
+		return map[uint64][]byte{65536: {}, 1 << 32: {salt},
+			1<<63 - 1: {9, salt}}
+	default:
+		return map[uint64][]byte{70000: {salt}, 70001: {salt + 1},
+			70002: {salt + 2}}
+	}
+}
+
+func vBuildRoute(a vAtt) route.Route {
+	sh := a.Sh
+	if sh == nil {
+		sh = &vShape{N: 1, NoBP: true}
+		if a.Blinded {
+			sh.BL = 1
+		}
+	}
+	n := sh.N
+	if n < 1 {
+		n = 1
+	}
+	tl, ch := vTLs[0], vChans[0]
+	hops := make([]*route.Hop, n)
+	for i := 0; i < n; i++ {
+		if sh.TL > 0 {
+			tl = vTLs[(sh.TL+i)%len(vTLs)]
+			ch = vChans[(sh.TL+i)%len(vChans)]
+		}
+		hop := &route.Hop{
+			PubKeyBytes:      route.NewVertex(vPub(i + 1)),
+			ChannelID:        ch + uint64(i)*uint64(1-minInt(sh.TL, 1)),
+			OutgoingTimeLock: tl,
+			AmtToForward: lnwire.MilliSatoshi(
+				a.Amt + sh.Fee*uint64(n-1-i)),
+		}
+		if sh.CR&(1<<i) != 0 {
+			hop.CustomRecords = vCustomSet(sh.CRV+i, byte(16*i+1))
+		}
+		// blinded tail: introduction hop .. final hop
+		if a.Blinded && i >= n-sh.BL {
+			l := vEDLen[sh.ED%len(vEDLen)]
+			ed := make([]byte, l)
+			for j := range ed {
+				ed[j] = byte(2 + i + j)
+			}
+			hop.EncryptedData = ed
+			if i == n-sh.BL && !sh.NoBP {
+				hop.BlindingPoint = vPub(5 + sh.ED)
+			}
+		}
+		hops[i] = hop
+	}
+	if sh.XK {
+		hops[0].CustomRecords = map[uint64][]byte{1<<63 + 5: {1}}
+	}
+	fin := hops[n-1]
+	fin.TotalAmtMsat = lnwire.MilliSatoshi(a.BTotal)
+	if a.HasMPP {
+		var addr [32]byte
+		binary.BigEndian.PutUint64(addr[:8], a.Addr)
+		fin.MPP = record.NewMPP(lnwire.MilliSatoshi(a.Total), addr)
+	}
+	if sh.AMP > 0 {
+		var rs, si [32]byte
+		rs[0], rs[31] = 0xA0, byte(sh.AMP)
+		si[0], si[31] = 0x5E, byte(sh.AMP)
+		child := []uint32{0, 1, 1 << 31, 1<<32 - 1}[sh.AMP%4]
+		fin.AMP = record.NewAMP(rs, si, child)
+	}
+	switch sh.MD {
+	case 1:
+		fin.Metadata = []byte{0x4d}
+	case 2:
+		fin.Metadata = make([]byte, 32)
+		fin.Metadata[0], fin.Metadata[31] = 0x4d, 0x44
+	case 3:
+		fin.Metadata = []byte{}
+	}
+	rt := route.Route{
+		SourcePubKey:  route.NewVertex(vPub(0)),
+		TotalTimeLock: tl + uint32(minInt(sh.TL, 1))*7,
+		TotalAmount:   lnwire.MilliSatoshi(a.Amt + sh.Fee*uint64(n)),
+		Hops:          hops,
+	}
+	if sh.FH&1 != 0 {
+		rt.FirstHopAmount = tlv.NewRecordT[tlv.TlvType0](
+			tlv.NewBigSizeT(lnwire.MilliSatoshi(a.Amt + 77)),
+		)
+	}
+	if sh.FH&2 != 0 {
+		rt.FirstHopWireCustomRecords = lnwire.CustomRecords(
+			vCustomSet(sh.CRV+1, 0xF0))
+	}
+	return rt
+}
+
+func minInt(a, b int) int {
+	if a < b {
+		return a
+	}
+	return b
 }
 
 func vHash(ci int, h int) lntypes.Hash {
@@ -196,30 +471,11 @@ func vHash(ci int, h int) lntypes.Hash {
 }
 
 func vMakeAttempt(hash lntypes.Hash, idBase uint64, a vAtt) *HTLCAttemptInfo {
-	hop := &route.Hop{
-		PubKeyBytes:  vertex,
-		ChannelID:    1,
-		AmtToForward: lnwire.MilliSatoshi(a.Amt),
-		TotalAmtMsat: lnwire.MilliSatoshi(a.BTotal),
-	}
-	if a.HasMPP {
-		var addr [32]byte
-		binary.BigEndian.PutUint64(addr[:8], a.Addr)
-		hop.MPP = record.NewMPP(lnwire.MilliSatoshi(a.Total), addr)
-	}
-	if a.Blinded {
-		hop.EncryptedData = []byte{2, 2, 2}
-	}
 	hh := hash
 	return &HTLCAttemptInfo{
-		AttemptID:  idBase + a.ID,
-		sessionKey: vSessionKey(),
-		Route: route.Route{
-			SourcePubKey:  vertex,
-			TotalTimeLock: 100,
-			TotalAmount:   lnwire.MilliSatoshi(a.Amt),
-			Hops:          []*route.Hop{hop},
-		},
+		AttemptID:   idBase + a.ID,
+		sessionKey:  vSessionKey(),
+		Route:       vBuildRoute(a),
 		AttemptTime: time.Unix(1700000000, 0),
 		Hash:        &hh,
 	}
@@ -258,8 +514,9 @@ func vApply(db DB, ci int, nh int, op []any) vResp {
 		panic("bad op field")
 	}
 	var (
-		p   *MPPayment
-		err error
+		p       *MPPayment
+		err     error
+		regProj *vRouteP
 	)
 	switch op[0].(string) {
 	case "init":
@@ -276,7 +533,13 @@ func vApply(db DB, ci int, nh int, op []any) vResp {
 			ID: gu(2), Amt: gu(3), HasMPP: op[4].(bool), Addr: gu(5),
 			Total: gu(6), Blinded: op[7].(bool), BTotal: gu(8),
 		}
-		p, err = db.RegisterAttempt(ctx, h, vMakeAttempt(h, idBase, a))
+		if len(op) > 9 {
+			a.Sh, _ = op[9].(*vShape)
+		}
+		att := vMakeAttempt(h, idBase, a)
+		// what is handed to the store, projected BEFORE the call
+		regProj = vProjAttempt(att)
+		p, err = db.RegisterAttempt(ctx, h, att)
 	case "settle":
 		var pre lntypes.Preimage
 		pre[0] = 7
@@ -336,7 +599,7 @@ func vApply(db DB, ci int, nh int, op []any) vResp {
 	default:
 		panic("unknown op")
 	}
-	r := vResp{E: vErrCode(err), L: [][2]any{}}
+	r := vResp{E: vErrCode(err), L: [][2]any{}, Reg: regProj}
 	if err != nil && (sqldb.IsSerializationError(err) ||
 		errors.Is(err, sqldb.ErrRetriesExceeded)) {
 
@@ -358,6 +621,42 @@ func vApply(db DB, ci int, nh int, op []any) vResp {
 		r.P = vProject(p, idBase)
 	}
 	return r
+}
+
+// vQuery: closing observation through QueryPayments (all payments of the
+// case, complete and incomplete), projected like FetchInFlightPayments.
+func vQuery(st *vStores, ci int) map[string]vResp {
+	one := func(db DB) vResp {
+		resp, err := db.QueryPayments(context.Background(), Query{
+			MaxPayments:       100000,
+			IncludeIncomplete: true,
+		})
+		r := vResp{E: vErrCode(err), L: [][2]any{}}
+		if err != nil {
+			r.M = err.Error()
+			return r
+		}
+		type ent struct {
+			h int
+			p *vProj
+		}
+		var es []ent
+		for _, q := range resp.Payments {
+			id := q.Info.PaymentIdentifier
+			if int(binary.BigEndian.Uint32(id[0:4])) != ci ||
+				id[5] != 0xC1 {
+
+				continue
+			}
+			es = append(es, ent{int(id[4]), vProject(q, uint64(ci)<<8)})
+		}
+		sort.Slice(es, func(i, j int) bool { return es[i].h < es[j].h })
+		for _, e := range es {
+			r.L = append(r.L, [2]any{e.h, e.p})
+		}
+		return r
+	}
+	return map[string]vResp{"kv": one(st.kv), "sql": one(st.sql)}
 }
 
 type vStep struct {
@@ -566,8 +865,9 @@ func vGenCase(st *vStores, r *vrng, ci int, mode string, nops int) []vStep {
 			} else {
 				a.ID = uint64(r.intn(5))
 			}
+			a.Sh = vGenShape(r, a.Blinded, a.HasMPP)
 			s := do([]any{"reg", h, a.ID, a.Amt, a.HasMPP, a.Addr,
-				a.Total, a.Blinded, a.BTotal})
+				a.Total, a.Blinded, a.BTotal, a.Sh})
 			if s.KV.E == 0 || s.SQL.E == 0 {
 				ids[h] = append(ids[h], a.ID)
 			}
@@ -598,6 +898,152 @@ func vGenCase(st *vStores, r *vrng, ci int, mode string, nops int) []vStep {
 	}
 	do([]any{"inflight"})
 	return steps
+}
+
+// vGenShape draws the route content of one attempt: 1-4 hops; blinded
+// attempts get a blinded tail of every length 1..N (1 = the final hop is its
+// own introduction node, what routing.newRoute builds for an
+// introduction-node-only path; N = the first hop is the introduction node),
+// rarely without a blinding point; AMP / metadata / custom records /
+// first-hop data / boundary time locks and channel ids on a minority.
+// A quarter of the draws stay the plain shape of the directed witnesses.
+func vGenShape(r *vrng, blinded, hasMPP bool) *vShape {
+	if r.intn(4) == 0 {
+		return nil
+	}
+	sh := &vShape{N: 1 + r.intn(4)}
+	if r.intn(3) == 0 {
+		sh.N = 1
+	}
+	if blinded {
+		sh.BL = 1 + r.intn(sh.N)
+		if r.intn(3) == 0 {
+			sh.BL = 1
+		}
+		sh.NoBP = r.intn(8) == 0
+		sh.ED = r.intn(len(vEDLen))
+	} else {
+		if hasMPP && r.intn(4) == 0 {
+			sh.AMP = 1 + r.intn(4)
+		}
+		if r.intn(3) == 0 {
+			sh.MD = 1 + r.intn(3)
+		}
+	}
+	if r.intn(3) == 0 {
+		sh.CR = 1 + r.intn(1<<sh.N-1)
+		sh.CRV = r.intn(5)
+	}
+	if r.intn(4) == 0 {
+		sh.FH = 1 + r.intn(3)
+		sh.CRV = r.intn(5)
+	}
+	if r.intn(2) == 0 {
+		sh.Fee = uint64(1 + r.intn(50))
+	}
+	if r.intn(6) == 0 {
+		sh.TL = 1 + r.intn(6)
+	}
+	return sh
+}
+
+// vShapeUniverse enumerates the small universe of route shapes: hops 1..3
+// (thorough: 1..4) x
+// blinded tail length 0..N x introduction hop with / without blinding point x
+// {bare, every optional field set}.  Non-blinded shapes alternate between an
+// MPP final hop and (for "bare") a single-shot attempt.
+type vShapeCase struct {
+	name    string
+	blinded bool
+	mpp     bool
+	sh      *vShape
+}
+
+func vShapeUniverse() []vShapeCase {
+	var out []vShapeCase
+	nmax := 3
+	if vTier() == "thorough" {
+		nmax = 4
+	}
+	for n := 1; n <= nmax; n++ {
+		for bl := 0; bl <= n; bl++ {
+			for _, nobp := range []bool{false, true} {
+				if bl == 0 && nobp {
+					continue
+				}
+				for full := 0; full < 2; full++ {
+					sh := &vShape{N: n, BL: bl, NoBP: nobp}
+					c := vShapeCase{blinded: bl > 0, mpp: bl == 0,
+						sh: sh}
+					if full == 1 {
+						sh.CR = 1<<n - 1
+						sh.CRV = n + bl
+						sh.FH = 3
+						sh.Fee = 7
+						sh.ED = 1 + (n+bl)%4
+						sh.TL = n + bl
+						if bl == 0 {
+							sh.AMP = 1 + n
+							sh.MD = n
+						}
+					}
+					c.name = "n" + strconv.Itoa(n) + "bl" +
+						strconv.Itoa(bl)
+					if nobp {
+						c.name += "nobp"
+					}
+					if full == 1 {
+						c.name += "full"
+					}
+					out = append(out, c)
+				}
+			}
+		}
+	}
+	return out
+}
+
+// vShapeHistory: the multi-shard history run for every shape of the universe:
+// a 1000 msat payment split 400 + 600 with the SAME shape (second shard
+// registered while the first is in flight; reaches the amount exactly), a
+// shard announcing a different total (blinded: total_amt_msat, MPP: total),
+// a shard of the other kind (mixed blinded / non-blinded), an overflowing
+// shard, then fail one shard, re-send its amount, settle everything.
+func vShapeHistory(c vShapeCase) [][]any {
+	const v = uint64(1000)
+	reg := func(id, amt uint64, blinded, mpp bool, total uint64,
+		sh *vShape) []any {
+
+		bt, mt := uint64(0), uint64(0)
+		if blinded {
+			bt = total
+		}
+		if mpp {
+			mt = total
+		}
+		return []any{"reg", 0, id, amt, mpp, uint64(1), mt, blinded, bt, sh}
+	}
+	other := &vShape{N: c.sh.N, BL: 0}
+	if !c.blinded {
+		other = &vShape{N: c.sh.N, BL: 1}
+	}
+	return [][]any{
+		{"init", 0, v},
+		reg(0, 400, c.blinded, c.mpp, v, c.sh),
+		{"fetch", 0},
+		reg(1, 600, c.blinded, c.mpp, v, c.sh),
+		{"inflight"},
+		{"failatt", 0, uint64(1)},
+		reg(2, 1, c.blinded, c.mpp, v+1, c.sh),
+		reg(3, 1, !c.blinded, !c.mpp, v, other),
+		reg(4, 601, c.blinded, c.mpp, v, c.sh),
+		reg(5, 600, c.blinded, c.mpp, v, c.sh),
+		{"fetch", 0},
+		{"settle", 0, uint64(0)},
+		{"settle", 0, uint64(5)},
+		{"fetch", 0},
+		{"inflight"},
+	}
 }
 
 // Directed histories: the witnesses of the Coq theorems
@@ -657,6 +1103,32 @@ func TestVerifPayments(t *testing.T) {
 			"steps": steps})
 		ci++
 	}
+	// the enumerated universe of route shapes, each under the multi-shard
+	// history
+	for _, sc := range vShapeUniverse() {
+		var steps []vStep
+		for _, op := range vShapeHistory(sc) {
+			steps = append(steps, vExec(st, ci, 1, op))
+		}
+		out.emit(map[string]any{"case": ci, "mode": "shape",
+			"shape": sc.name, "steps": steps,
+			"query": vQuery(st, ci)})
+		ci++
+	}
+	// probe (recorded, not judged): a custom record key >= 2^63
+	{
+		var steps []vStep
+		for _, op := range [][]any{{"init", 0, uint64(1000)},
+			{"reg", 0, uint64(0), uint64(400), true, uint64(1), uint64(1000),
+				false, uint64(0), &vShape{N: 2, XK: true}},
+			{"fetch", 0}} {
+
+			steps = append(steps, vExec(st, ci, 1, op))
+		}
+		out.emit(map[string]any{"case": ci, "mode": "probe",
+			"probe": "custom-record-key>=2^63", "steps": steps})
+		ci++
+	}
 	for n := 0; n < ncases; n++ {
 		if n%chunk == 0 {
 			st = vNewStores(t)
@@ -674,7 +1146,8 @@ func TestVerifPayments(t *testing.T) {
 			nops = 40 + r.intn(40)
 		}
 		steps := vGenCase(st, r, ci, mode, nops)
-		out.emit(map[string]any{"case": ci, "mode": mode, "steps": steps})
+		out.emit(map[string]any{"case": ci, "mode": mode, "steps": steps,
+			"query": vQuery(st, ci)})
 		ci++
 	}
 }
